@@ -110,6 +110,12 @@ struct MStyle {
 
 /// visible characters with the style in effect (M-VT events interpreted by M-SGR)
 fn model_chars(input: &[u8]) -> Vec<(char, MStyle)> {
+    model(input).0
+}
+
+/// (styled visible characters, every SGR sequence was inside the well-formed SGR grammar)
+fn model(input: &[u8]) -> (Vec<(char, MStyle)>, bool) {
+    let mut well_formed = true;
     let mut vt = Vt::default();
     let mut s = Sgr::default();
     let mut out = vec![];
@@ -119,12 +125,14 @@ fn model_chars(input: &[u8]) -> Vec<(char, MStyle)> {
             match ev {
                 Ev::Print(c) => out.push((c, st)),
                 Ev::Execute(b) if matches!(b, 0x09 | 0x0a | 0x0c | 0x0d) => out.push((b as char, st)),
-                Ev::Csi { params, inter, ignore, byte: b'm' } if inter.is_empty() && !ignore => s.apply(&params),
+                Ev::Csi { params, inter, ignore, byte: b'm' } if inter.is_empty() && !ignore => {
+                    well_formed &= s.apply(&params);
+                }
                 _ => {}
             }
         }
     }
-    out
+    (out, well_formed)
 }
 
 /// visible text split at LF, a CR before the LF dropped
@@ -297,6 +305,8 @@ struct Deno {
     fg: Vec<Rgb>,
     bg: Vec<Rgb>,
     ul: Vec<Rgb>,
+    /// `background:` declaration (used on the canvas rectangle)
+    canvas: Vec<Rgb>,
     fx: u16,
 }
 
@@ -325,6 +335,9 @@ fn denote(rule: &Rule) -> Result<Deno, String> {
         } else {
             d.fg.push(col(f)?);
         }
+    }
+    if let Some(b) = get("background").or(get("background-color")) {
+        d.canvas.push(col(b)?);
     }
     if let Some(w) = get("font-weight") {
         if matches!(w, "bold" | "bolder") || w.parse::<u32>().map_or(false, |n| n >= 600) {
@@ -371,6 +384,8 @@ struct Svg {
     height: Option<f64>,
     css: HashMap<String, Rule>,
     container_classes: Vec<String>,
+    /// class lists of <rect> children of the root (the canvas background)
+    rect_classes: Vec<Vec<String>>,
     rows: Vec<Row>,
 }
 
@@ -441,7 +456,8 @@ fn read_svg(doc: &xml::Document) -> Result<Svg, String> {
             }
         }
     }
-    Ok(Svg { height, css, container_classes, rows })
+    let rect_classes = root.elements().filter(|e| e.name == "rect").map(classes_of).collect();
+    Ok(Svg { height, css, container_classes, rect_classes, rows })
 }
 
 // ---------------------------------------------------------------- the oracle
@@ -468,6 +484,11 @@ fn span_deno(svg: &Svg, classes: &[String]) -> Result<Deno, Viol> {
         for x in r.ul {
             if !d.ul.contains(&x) {
                 d.ul.push(x);
+            }
+        }
+        for x in r.canvas {
+            if !d.canvas.contains(&x) {
+                d.canvas.push(x);
             }
         }
         d.fx |= r.fx;
@@ -553,6 +574,18 @@ fn check_svg(input: &[u8], cfg: Cfg, svg_text: &str) -> Result<(), Viol> {
                 "default-foreground",
                 format!("the text container declares fill {} but the configured default foreground is {}", hexrgb(Some(c)), hexrgb(default_fg)),
             ));
+        }
+    }
+
+    for rc in &svg.rect_classes {
+        let d = span_deno(&svg, rc)?;
+        for c in d.canvas.iter().chain(d.fg.iter()) {
+            if Some(*c) != default_bg {
+                return Err((
+                    "default-background",
+                    format!("the canvas rectangle (classes {rc:?}) declares {} but the configured default background is {}", hexrgb(Some(*c)), hexrgb(default_bg)),
+                ));
+            }
         }
     }
 
@@ -679,7 +712,10 @@ fn render(input: &[u8], cfg: Cfg) -> Result<String, Viol> {
 
 fn in_domain(input: &[u8]) -> bool {
     // the statement: visible text representable in XML 1.0, no U+000C / U+FFFE / U+FFFF; bare CR excluded
-    let chars = model_chars(input);
+    let (chars, well_formed) = model(input);
+    if !well_formed {
+        return false; // an SGR sequence outside the grammar the statement refers to
+    }
     for (i, (c, st)) in chars.iter().enumerate() {
         // a terminal has one underline style, the style type five independent bits: text styled by two
         // underline styles without a reset in between is left open by the statement (same guard as C07)
@@ -832,7 +868,6 @@ fn order_key(f: &Finding) -> (usize, usize, String) {
 fn main_check(ctx: &Ctx) -> Outcome {
     let mut out = Outcome::default();
     let quick = ctx.quick();
-    std::panic::set_hook(Box::new(|_| {})); // panics are caught and reported as findings
     // multi-attribute sequences with attributes after `4` / `38;5;n` / `38;2;r;g;b`: on by default,
     // `--opt multi=off` leaves them out
     let multi_any = ctx.opt("multi").map_or(MULTI_ANY_DEFAULT, |v| v == "on");
@@ -1026,6 +1061,7 @@ fn main_check(ctx: &Ctx) -> Outcome {
     out.assume("unstyled foreground may be expressed by no class (inheriting the container's fill, which must then be the configured default) or by a class with the same RGB; an unset background may be no class or the configured default background colour");
     out.assume("background blocks are related to text by position in the line (one background span per foreground span) or, if the counts differ, by the sequence of colours along the line; their width is not checked");
     out.assume("blink has no SVG rendering and is not generated; the canvas height must reach the baseline of the last line, no exact formula is demanded");
+    out.assume("a canvas <rect> is not required; if one is present and its class declares a background/fill colour, that colour must be the configured default background");
     out.assume("Term::new() without colour setters means white (palette index 7) on black (index 0)");
     out
 }
